@@ -25,7 +25,24 @@ pub fn check_bytes(b: &[u8]) -> (Vec<Finding>, bool) {
             let out = if compressed { p.build_bytes_vec_compressed() } else { p.build_bytes_vec() };
             match out {
                 Err(e) => bad.push((format!("build-error|{}", mode), format!("parsed packet cannot be serialised ({}): {:?}", mode, e))),
-                Ok(bytes) => match Packet::parse(&bytes) {
+                Ok(bytes) => {
+                    // a proxy re-emits into its own buffers: a fixed datagram buffer and a recycled vector
+                    let len = bytes.len();
+                    let mut fixed = vec![0xaau8; len + 64];
+                    let mut cur = std::io::Cursor::new(&mut fixed[..]);
+                    let res = if compressed { p.write_compressed_to(&mut cur) } else { p.write_to(&mut cur) };
+                    let pos = cur.position() as usize;
+                    if res.is_err() || pos != len || fixed[..len] != bytes[..] {
+                        bad.push((format!("writer-fixed-buffer|{}", mode), format!("re-emitting ({}) into a {}-byte datagram buffer: result {:?}, final position {}, expected the {} bytes of the vector-returning call", mode, len + 64, res.map_err(|e| format!("{:?}", e)), pos, len)));
+                    }
+                    let mut cur = std::io::Cursor::new(vec![0xaau8; len + 40]);
+                    let res = if compressed { p.write_compressed_to(&mut cur) } else { p.write_to(&mut cur) };
+                    let pos = cur.position() as usize;
+                    let v = cur.into_inner();
+                    if res.is_err() || pos != len || v.len() < len || v[..len] != bytes[..] {
+                        bad.push((format!("writer-recycled-vec|{}", mode), format!("re-emitting ({}) into a recycled vector: result {:?}, final position {}, expected {} bytes equal to the vector-returning call", mode, res.map_err(|e| format!("{:?}", e)), pos, len)));
+                    }
+                    match Packet::parse(&bytes) {
                     Err(e) => bad.push((format!("reparse-error|{}", mode), format!("re-serialised ({}) output rejected: {:?}; output {}", mode, e, crate::engine::truncate(&hex(&bytes), 300)))),
                     Ok(q) => {
                         let o2 = observe(&q);
@@ -39,7 +56,7 @@ pub fn check_bytes(b: &[u8]) -> (Vec<Finding>, bool) {
                             bad.push((format!("{}|{}", tag, mode), format!("after parse -> {} re-serialise -> parse: {}", mode, d)));
                         }
                     }
-                },
+                }}
             }
         }
         Some(bad)
@@ -245,6 +262,7 @@ pub fn run(ctx: &Ctx) {
     }
     extra.extend(gen::long_name_packets());
     extra.extend(gen::many_and_sized_packets());
+    extra.extend(gen::size_sweep_packets());
     extra.push(gen::big_shared_packet(20, 1600));
     extra.push(gen::big_shared_packet(120, 500));
     space.extend(extra);
